@@ -84,6 +84,14 @@ class P(Process):
                 'y_' + n: {'_default': 0, '_updater': tag_updater},
                 'z': {'_default': 0, '_emit': True},
                 'vec': {'_default': []}}}
+        if self.run.cfg.get('twoports') == 'nested':
+            # two ports on one store, both reaching the same variable one
+            # level below the port (port -> g -> z)
+            return {'s': {
+                'x_' + n: {'_default': 0, '_emit': True},
+                'y_' + n: {'_default': 0, '_updater': tag_updater},
+                'g': {'z': {'_default': 0, '_emit': True}}},
+                's2': {'g': {'z': {'_default': 0, '_emit': True}}}}
         if self.run.cfg.get('twoports'):
             # two ports of the process are wired to one store
             return {'s': {
@@ -165,6 +173,19 @@ class P(Process):
                 rec['vec_sum'] = d
             return {'s': {'x_' + n: d, 'y_' + n: Tagged((n, k)), 'z': d,
                           'vec': vec}}
+        if run.cfg.get('twoports') == 'nested':
+            # one update dictionary, refilled; each port contributes d to z
+            if self._upd is None:
+                # the contribution to z is a constant of the process, put
+                # into the dictionary once
+                self._cz = run.ctx.int('cz', -3, 3)
+                self._upd = {'s': {'g': {'z': self._cz}},
+                             's2': {'g': {'z': self._cz}}}
+            self._upd['s']['x_' + n] = d
+            self._upd['s']['y_' + n] = Tagged((n, k))
+            rec['dz'] = 2 * self._cz
+            run.ctx.goal('two ports reach one nested variable, update reused')
+            return self._upd
         if run.cfg.get('twoports'):
             # the process keeps one update dictionary and refills it
             if self._upd is None:
@@ -240,6 +261,9 @@ def build(ctx, cfg):
     if cfg.get('twoports'):
         topology = {n: {'s': ('s',), 's2': ('s',)} for n in names}
     run.xrow = lambda row, n: row['s']['x_' + n]
+    run.zrow = lambda row: row['s']['z']
+    if cfg.get('twoports') == 'nested':
+        run.zrow = lambda row: row['s']['g']['z']
     if cfg.get('emptypath'):
         # the port is the store that holds the process ('_path': ()); only z
         # is re-mapped, x_<n> and y_<n> keep their own names
